@@ -460,6 +460,41 @@ fn arithmetic(id: &mut usize, out: &mut Vec<Obs>) {
             }
         }
     }
+    // floating point results beyond the type's range: built by repeated multiplication (no exponent literals)
+    let s_setup = vec!["SV! = 10000000000".to_string(), "SV! = SV! * SV!".to_string(), "SW! = SV! * 1000000000 * 1000000000 * 3".to_string()]; // SV! = 1E20, SW! = 3E38
+    let d_setup = vec!["SV# = 10000000000".to_string(), "SV# = SV# * SV#".to_string(), "SV# = SV# * SV#".to_string(), "SV# = SV# * SV#".to_string(), "SV# = SV# * SV#".to_string(), "SW# = SV# / 1000000000000 * SV#".to_string()]; // SV# = 1E160, SW# = 1E308
+    let float_cases: Vec<(T, &Vec<String>, &str)> = vec![
+        (T::S, &s_setup, "SV! * SV!"),
+        (T::S, &s_setup, "SW! + SW!"),
+        (T::S, &s_setup, "-SW! - SW!"),
+        (T::S, &s_setup, "SW! * 2"),
+        (T::S, &s_setup, "SW! / .25"),
+        (T::S, &s_setup, "SW! * SV%"),
+        (T::D, &d_setup, "SV# * SV#"),
+        (T::D, &d_setup, "SW# + SW#"),
+        (T::D, &d_setup, "-SW# - SW#"),
+        (T::D, &d_setup, "SW# * 2"),
+        (T::D, &d_setup, "SW# / .25"),
+        (T::D, &d_setup, "SW# * SV%"),
+    ];
+    for (t, setup, e) in float_cases {
+        for form in 0..2 {
+            *id += 1;
+            let k = *id;
+            let mut lines = setup.clone();
+            lines.push("SV% = 4".to_string());
+            lines.push(if form == 0 { format!("PRINT \"K{}\"; {}", k, e) } else { format!("SX{} = {}", t.sfx(), e) });
+            out.push(Obs { id: k, route: "float-overflow", s: t, t, v: w(0), lines, show: None, stdin: None, data: None, exp: vec![Out::Overflow], arith: false });
+        }
+    }
+    // a DOUBLE beyond the SINGLE range stored into a SINGLE
+    {
+        *id += 1;
+        let k = *id;
+        let mut lines = d_setup.clone();
+        lines.push("SX! = SV#".to_string());
+        out.push(Obs { id: k, route: "float-overflow", s: T::D, t: T::S, v: w(0), lines, show: None, stdin: None, data: None, exp: vec![Out::Overflow], arith: false });
+    }
     for (t, min) in [(T::I, -32768i128), (T::L, -2147483648i128)] {
         *id += 1;
         let k = *id;
